@@ -48,6 +48,9 @@
 #include <crab/fixpoint/fixpoint_params.hpp>
 #include <crab/fixpoint/thresholds.hpp>
 #include <crab/fixpoint/wto.hpp>
+#ifdef CRAB_VERIF
+#include <crab/support/verif_hooks.hpp>
+#endif
 #include <crab/support/debug.hpp>
 #include <crab/support/stats.hpp>
 
@@ -166,6 +169,9 @@ private:
                << "\n";);
 
     if (iteration <= m_params.get_widening_delay()) {
+#ifdef CRAB_VERIF
+      crab::verif_hooks::fixpo_event("join", crab::basic_block_traits<basic_block_t>::to_string(node), iteration);
+#endif
       auto widen_res = before | after;
       CRAB_VERBOSE_IF(3, crab::outs() << "Prev   : " << before << "\n"
                                       << "Current: " << after << "\n"
@@ -185,6 +191,9 @@ private:
                      crab::basic_block_traits<basic_block_t>::to_string(node));
         }
         thresholds_t thresholds = it->second;
+#ifdef CRAB_VERIF
+        crab::verif_hooks::fixpo_event("widen_thresholds", crab::basic_block_traits<basic_block_t>::to_string(node), iteration);
+#endif
         auto widen_res = before.widening_thresholds(after, thresholds);
         CRAB_VERBOSE_IF(3,
                         // To avoid closure on the result
@@ -192,6 +201,9 @@ private:
                         crab::outs() << "Res    : " << widen_res_copy << "\n");
         return widen_res;
       } else {
+#ifdef CRAB_VERIF
+        crab::verif_hooks::fixpo_event("widen", crab::basic_block_traits<basic_block_t>::to_string(node), iteration);
+#endif
         auto widen_res = before || after;
         CRAB_VERBOSE_IF(3,
                         // To avoid closure on the result
@@ -215,12 +227,18 @@ private:
                << "\n";);
 
     if (iteration == 1) {
+#ifdef CRAB_VERIF
+      crab::verif_hooks::fixpo_event("meet", crab::basic_block_traits<basic_block_t>::to_string(node), iteration);
+#endif
       auto narrow_res = before & after;
       CRAB_VERBOSE_IF(3, crab::outs() << "Prev   : " << before << "\n"
                                       << "Current: " << after << "\n"
                                       << "Res    : " << narrow_res << "\n");
       return narrow_res;
     } else {
+#ifdef CRAB_VERIF
+      crab::verif_hooks::fixpo_event("narrow", crab::basic_block_traits<basic_block_t>::to_string(node), iteration);
+#endif
       auto narrow_res = before && after;
       CRAB_VERBOSE_IF(3, crab::outs() << "Prev   : " << before << "\n"
                                       << "Current: " << after << "\n"
@@ -569,6 +587,9 @@ public:
     for (unsigned int iteration = 1;; ++iteration) {
       // keep track of how many times the cycle is visited by the fixpoint
       cycle.increment_fixpo_visits();
+#ifdef CRAB_VERIF
+      crab::verif_hooks::fixpo_event("iter", crab::basic_block_traits<basic_block_t>::to_string(head), iteration);
+#endif
 
       // Increasing iteration sequence with widening
       m_iterator->set_pre(head, pre);
@@ -591,6 +612,9 @@ public:
       crab::CrabStats::stop("Fixpo.check_fixpoint");
       if (fixpoint_reached) {
         // Post-fixpoint reached
+#ifdef CRAB_VERIF
+        crab::verif_hooks::fixpo_event("stable", crab::basic_block_traits<basic_block_t>::to_string(head), iteration);
+#endif
         CRAB_VERBOSE_IF(1, crab::get_msg_stream() << "post-fixpoint reached\n");
         m_iterator->set_pre(head, new_pre);
         pre = std::move(new_pre);
@@ -609,6 +633,9 @@ public:
 
     for (unsigned int iteration = 1;; ++iteration) {
       // Decreasing iteration sequence with narrowing
+#ifdef CRAB_VERIF
+      crab::verif_hooks::fixpo_event("dec_iter", crab::basic_block_traits<basic_block_t>::to_string(head), iteration);
+#endif
       compute_post(head, pre);
       for (typename wto_cycle_t::iterator it = cycle.begin(); it != cycle.end();
            ++it) {
@@ -627,11 +654,18 @@ public:
       bool no_more_refinement = pre <= new_pre;
       crab::CrabStats::stop("Fixpo.check_fixpoint");
       if (no_more_refinement) {
+#ifdef CRAB_VERIF
+        crab::verif_hooks::fixpo_event("dec_stable", crab::basic_block_traits<basic_block_t>::to_string(head), iteration);
+#endif
         CRAB_VERBOSE_IF(1, crab::get_msg_stream()
                                << "No more refinement possible.\n");
         // No more refinement possible(pre == new_pre)
         break;
       } else {
+#ifdef CRAB_VERIF
+        if (iteration > m_iterator->m_params.get_descending_iterations())
+          crab::verif_hooks::fixpo_event("dec_limit", crab::basic_block_traits<basic_block_t>::to_string(head), iteration);
+#endif
         if (iteration > m_iterator->m_params.get_descending_iterations())
           break;
         pre = m_iterator->refine(head, iteration, pre, new_pre);
